@@ -480,3 +480,376 @@ pub broadcast group group_msb {
     lemma_msb_up64, lemma_msb_up32, lemma_msb_up16, lemma_msb_up8, lemma_msb_up4, lemma_msb_nibble,
 }
 
+
+// ---- shifts by a variable amount as arithmetic with powers of two
+pub open spec fn p2(s: int) -> int { vstd::arithmetic::power2::pow2(s as nat) as int }
+
+pub proof fn lemma_p2_basics(s: int)
+    requires 0 <= s <= 128
+    ensures
+        p2(s) >= 1,
+        p2(s) * p2(128 - s) == B128(),
+        p2(0) == 1, p2(64) == B64(), p2(127) * 2 == B128(), p2(128) == B128(),
+        s <= 63 ==> p2(s) <= p2(63) && p2(63) * 2 == B64(),
+{
+    vstd::arithmetic::power2::lemma_pow2_pos(s as nat);
+    vstd::arithmetic::power2::lemma_pow2_adds(s as nat, (128 - s) as nat);
+    vstd::arithmetic::power2::lemma_pow2_adds(64, 64);
+    vstd::arithmetic::power2::lemma_pow2_adds(127, 1);
+    vstd::arithmetic::power2::lemma_pow2_adds(63, 1);
+    vstd::arithmetic::power2::lemma2_to64();
+    if s < 63 { vstd::arithmetic::power2::lemma_pow2_strictly_increases(s as nat, 63); }
+}
+
+/// x >> s is the quotient by 2^s
+pub proof fn lemma_shr_p2(x: u128, s: u128)
+    requires s < 128
+    ensures (x >> s) as int == (x as int) / p2(s as int)
+{
+    vstd::bits::lemma_u128_shr_is_div(x, s);
+}
+
+/// x << 1 is 2x modulo 2^128
+proof fn lemma_shl1_mod(b: u128)
+    ensures ((b << 1) as int) == (2 * b) % B128()
+{
+    let m = B128();
+    if b < 0x8000_0000_0000_0000_0000_0000_0000_0000u128 {
+        assert(b < 0x8000_0000_0000_0000_0000_0000_0000_0000u128 ==> (b << 1) == add(b, b)) by (bit_vector);
+        vstd::arithmetic::div_mod::lemma_small_mod((2 * b) as nat, m as nat);
+    } else {
+        let c = (b - 0x8000_0000_0000_0000_0000_0000_0000_0000u128) as u128;
+        assert(b >= 0x8000_0000_0000_0000_0000_0000_0000_0000u128 ==>
+            (b << 1) == add(sub(b, 0x8000_0000_0000_0000_0000_0000_0000_0000u128), sub(b, 0x8000_0000_0000_0000_0000_0000_0000_0000u128))) by (bit_vector);
+        assert((b << 1) as int == 2 * b - m);
+        lemma_div_mod_unique(2 * b, m, 1, 2 * b - m);
+    }
+}
+
+/// x << s is x * 2^s modulo 2^128
+pub proof fn lemma_shl_p2(a: u128, s: u128)
+    requires s < 128
+    ensures (a << s) as int == ((a as int) * p2(s as int)) % B128()
+    decreases s
+{
+    let m = B128();
+    if s == 0 {
+        assert(a << 0 == a) by (bit_vector);
+        vstd::arithmetic::power2::lemma2_to64();
+        assert((a as int) * 1 == a as int);
+        vstd::arithmetic::div_mod::lemma_small_mod(a as nat, m as nat);
+    } else {
+        let s1 = (s - 1) as u128;
+        let b = a << s1;
+        lemma_shl_p2(a, s1);
+        assert(s1 < 127 ==> a << add(s1, 1) == (a << s1) << 1) by (bit_vector);
+        assert(a << s == b << 1);
+        lemma_shl1_mod(b);
+        let t = (a as int) * p2(s1 as int);
+        vstd::arithmetic::power2::lemma_pow2_unfold(s as nat);
+        assert(p2(s as int) == 2 * p2(s1 as int));
+        assert((a as int) * p2(s as int) == 2 * t) by (nonlinear_arith)
+            requires p2(s as int) == 2 * p2(s1 as int), t == (a as int) * p2(s1 as int);
+        vstd::arithmetic::div_mod::lemma_mul_mod_noop_right(2, t, m);
+    }
+}
+
+// ---- Knuth's algorithm D (TAOCP vol. 2, 4.3.1), 4-limb dividend, 2-limb divisor, limbs of 64 bits
+/// Normalisation: with p = 2^s the scaled divisor yn = y * p has its top bit set, and the scaled
+/// dividend x * p is the pair (u32, u10) with u32 < yn (so the quotient fits two limbs).
+pub open spec fn norm_ok(x: int, y: int, p: int, u32: int, u10: int, yn: int) -> bool {
+    &&& p >= 1
+    &&& yn == y * p
+    &&& 2 * yn >= B128() && yn < B128()
+    &&& 0 <= u10 < B128()
+    &&& 0 <= u32 < yn
+    &&& u32 * B128() + u10 == x * p
+}
+
+pub proof fn lemma_msb_bounds(y: u128, r: int)
+    requires is_msb(y, r)
+    ensures p2(r) <= y < 2 * p2(r), 0 <= r < 128,
+{
+    reveal(is_msb);
+    lemma_shr_p2(y, r as u128);
+    lemma_p2_basics(r);
+    lemma_div_forms(y as int, p2(r));
+}
+
+pub proof fn lemma_mul_le(a: int, b: int, p: int)
+    requires a <= b, p >= 0
+    ensures a * p <= b * p
+{
+    assert(a * p <= b * p) by (nonlinear_arith) requires a <= b, p >= 0;
+}
+
+pub broadcast proof fn lemma_normalize(y: u128, r: int, xh: u128, xl: u128, s: u128)
+    requires
+        #[trigger] is_msb(y, r), s == 127 - r, xh < y, y >= B64(),
+    ensures
+        s <= 63,
+        norm_ok(u256(xh as int, xl as int), y as int, p2(s as int),
+            ((#[trigger] (xh << s)) | (if s == 0 { 0u128 } else { xl >> ((128 - s) as u128) })) as int,
+            (#[trigger] (xl << s)) as int, (y << s) as int),
+{
+    let m = B128();
+    lemma_b128();
+    lemma_msb_bounds(y, r);
+    lemma_p2_basics(r);
+    // y >= 2^64 puts the top bit at position >= 64
+    if r < 64 {
+        if r + 1 < 64 { vstd::arithmetic::power2::lemma_pow2_strictly_increases((r + 1) as nat, 64); }
+        vstd::arithmetic::power2::lemma_pow2_unfold((r + 1) as nat);
+        assert(false);
+    }
+    let p = p2(s as int);
+    lemma_p2_basics(s as int);
+    vstd::arithmetic::power2::lemma_pow2_adds(r as nat, s as nat);
+    assert(p2(r) * p == p2(127));
+    // the scaled divisor
+    lemma_mul_le(p2(r), y as int, p);
+    lemma_mul_le(y as int + 1, 2 * p2(r), p);
+    assert((2 * p2(r)) * p == 2 * (p2(r) * p)) by (nonlinear_arith);
+    assert((y as int + 1) * p == y * p + p) by (nonlinear_arith);
+    let yn = (y as int) * p;
+    assert(p2(127) <= yn < m);
+    lemma_shl_p2(y, s);
+    vstd::arithmetic::div_mod::lemma_small_mod(yn as nat, m as nat);
+    assert((y << s) as int == yn);
+    // the high word of the dividend
+    lemma_mul_le(xh as int + 1, y as int, p);
+    assert((xh as int + 1) * p == xh * p + p) by (nonlinear_arith);
+    assert(0 <= xh * p) by (nonlinear_arith) requires xh >= 0, p >= 0;
+    lemma_shl_p2(xh, s);
+    vstd::arithmetic::div_mod::lemma_small_mod(((xh as int) * p) as nat, m as nat);
+    assert((xh << s) as int == xh * p);
+    // the low word: xl * p == sh * 2^128 + (xl << s)
+    let sh = if s == 0 { 0u128 } else { xl >> ((128 - s) as u128) };
+    let xlp = (xl as int) * p;
+    assert(0 <= xlp) by (nonlinear_arith) requires xl >= 0, p >= 0, xlp == (xl as int) * p;
+    lemma_shl_p2(xl, s);
+    lemma_div_forms(xlp, m);
+    if s == 0 {
+        assert(p == 1);
+        assert(xlp == xl as int) by (nonlinear_arith) requires xlp == (xl as int) * p, p == 1;
+        vstd::arithmetic::div_mod::lemma_small_mod(xlp as nat, m as nat);
+        vstd::arithmetic::div_mod::lemma_basic_div(xlp, m);
+        assert(xh << 0 == xh) by (bit_vector);
+        assert(xh | 0 == xh) by (bit_vector);
+    } else {
+        let s2 = (128 - s) as u128;
+        let big = p2(s2 as int);
+        lemma_shr_p2(xl, s2);
+        lemma_p2_basics(s2 as int);
+        assert(big >= 1);
+        assert(p * big == m);
+        vstd::arithmetic::div_mod::lemma_div_multiples_vanish_quotient(p, xl as int, big);
+        assert(p * (xl as int) == xlp) by (nonlinear_arith) requires xlp == (xl as int) * p;
+        assert(sh as int == xlp / m);
+        assert(1 <= s && s < 128 ==> ((xh << s) | (xl >> sub(128, s))) == add(xh << s, xl >> sub(128, s))) by (bit_vector);
+    }
+    assert(sh as int == xlp / m);
+    // sh < p, hence no carry out of the high word
+    lemma_mul_lt(xl as int, m, p, p + 1);
+    assert(xlp < m * p) by (nonlinear_arith) requires xl < m, p >= 1, xlp == (xl as int) * p;
+    assert(sh < p) by (nonlinear_arith) requires xlp < m * p, xlp == (sh as int) * m + xlp % m, 0 <= xlp % m, m > 0;
+    let u32 = xh * p + sh;
+    assert(0 <= u32 < yn);
+    assert(((xh << s) | sh) as int == u32);
+    assert(u32 * m + (xl << s) as int == u256(xh as int, xl as int) * p) by (nonlinear_arith)
+        requires u32 == xh * p + sh, xlp == (sh as int) * m + (xl << s) as int, xlp == (xl as int) * p,
+            u256(xh as int, xl as int) == xh * m + xl;
+}
+
+/// State of the estimate of one quotient digit.  u32 < v: two leading limbs of the partial dividend,
+/// u1: its next limb, v = v1 * 2^64 + v0 the normalised divisor.
+/// q * v1 + rhat == u32 (q is the estimate from the leading limbs) and q is not below the true digit.
+pub open spec fn digit_est(q: int, rhat: int, u32: int, u1: int, v: int, v1: int, v0: int) -> bool {
+    &&& q >= 0 && rhat >= 0
+    &&& v == v1 * B64() + v0
+    &&& q * v1 + rhat == u32
+    &&& u32 * B64() + u1 - q * v < v
+}
+
+/// q is the true digit: 0 <= (u32 * 2^64 + u1) - q * v < v, and it fits a limb
+pub open spec fn digit_done(q: int, u32: int, u1: int, v: int) -> bool {
+    &&& 0 <= q < B64()
+    &&& q * v <= u32 * B64() + u1
+    &&& u32 * B64() + u1 - q * v < v
+}
+
+/// the constant side conditions of a digit step
+pub open spec fn digit_ctx(u32: int, u1: int, v: int, v1: int, v0: int) -> bool {
+    &&& v == v1 * B64() + v0
+    &&& B64() <= 2 * v1 && v1 < B64()
+    &&& 0 <= v0 < B64()
+    &&& 0 <= u1 < B64()
+    &&& 0 <= u32 < v
+}
+
+pub proof fn lemma_mul_split(q: int, v1: int, v0: int, k: int)
+    ensures q * (v1 * k + v0) == (q * v1) * k + q * v0
+{
+    vstd::arithmetic::mul::lemma_mul_is_distributive_add(q, v1 * k, v0);
+    vstd::arithmetic::mul::lemma_mul_is_associative(q, v1, k);
+}
+
+/// the first estimate q = u32 / v1, rhat = u32 % v1
+pub broadcast proof fn lemma_digit_init(q: int, rhat: int, u32: int, u1: int, v: int, v1: int, v0: int)
+    requires
+        digit_ctx(u32, u1, v, v1, v0), q == u32 / v1, rhat == u32 % v1,
+    ensures
+        #[trigger] digit_est(q, rhat, u32, u1, v, v1, v0),
+        rhat < B64(),
+        q < B64() ==> 0 <= q * v0 < B128(),
+        (q < B64() && q * v0 <= rhat * B64() + u1) ==> digit_done(q, u32, u1, v),
+{
+    let b = B64();
+    lemma_div_forms(u32, v1);
+    assert(q >= 0);
+    lemma_mul_split(q, v1, v0, b);
+    lemma_mul_split(q + 1, v1, v0, b);
+    // (q + 1) * v1 > u32, hence (q + 1) * v > u32 * b + u1
+    assert((q + 1) * v1 == q * v1 + v1) by (nonlinear_arith);
+    assert((q + 1) * v0 >= 0) by (nonlinear_arith) requires q >= 0, v0 >= 0;
+    assert((q + 1) * v == q * v + v) by (nonlinear_arith);
+    if q < b {
+        lemma_mul_lt(q, b, v0, b);
+        lemma_b128();
+        assert(B128() == b * b);
+    } 
+}
+
+/// one iteration of the correction loop: the estimate was too large (q >= 2^64, or the two-limb test fails)
+pub proof fn lemma_digit_step(q: int, rhat: int, u32: int, u1: int, v: int, v1: int, v0: int)
+    requires
+        digit_ctx(u32, u1, v, v1, v0), digit_est(q, rhat, u32, u1, v, v1, v0), rhat < B64(),
+        q >= B64() || q * v0 > rhat * B64() + u1,
+    ensures
+        q >= 1,
+        digit_est(q - 1, rhat + v1, u32, u1, v, v1, v0),
+        rhat + v1 >= B64() ==> digit_done(q - 1, u32, u1, v),
+        q - 1 < B64() ==> 0 <= (q - 1) * v0 < B128(),
+        (q - 1 < B64() && (q - 1) * v0 <= (rhat + v1) * B64() + u1) ==> digit_done(q - 1, u32, u1, v),
+{
+    let b = B64();
+    let u = u32 * b + u1;
+    lemma_b128();
+    assert(B128() == b * b);
+    lemma_mul_split(q, v1, v0, b);
+    lemma_mul_split(q - 1, v1, v0, b);
+    assert(q != 0) by {
+        if q == 0 { assert(q * v0 == 0) by (nonlinear_arith) requires q == 0; }
+    }
+    // the current estimate overshoots: u < q * v
+    if q >= b {
+        lemma_mul_le(b, q, v);
+        assert(u < b * v) by (nonlinear_arith) requires u == u32 * b + u1, u32 <= v - 1, u1 < b, b > 0;
+    }
+    assert(u < q * v);
+    assert((q - 1) * v == q * v - v) by (nonlinear_arith);
+    assert((q - 1) * v1 == q * v1 - v1) by (nonlinear_arith);
+    assert((q - 1) * v0 >= 0) by (nonlinear_arith) requires q >= 1, v0 >= 0;
+    if q - 1 < b {
+        lemma_mul_lt(q - 1, b, v0, b);
+    }
+    if rhat + v1 >= b {
+        // then q - 1 < 2^64: otherwise u32 >= 2^64 * v1 + 2^64 > v
+        if q - 1 >= b {
+            lemma_mul_le(b, q - 1, v1);
+            assert(false);
+        }
+        // and (q - 1) * v0 < 2^128 <= (rhat + v1) * 2^64
+        assert((rhat + v1) * b >= b * b) by (nonlinear_arith) requires rhat + v1 >= b, b > 0;
+    }
+}
+
+/// a * b + c - d * e computed with wrapping 128-bit operations is exact whenever the result fits
+pub broadcast proof fn lemma_wrapping_mul_add_sub_mul(a: u128, b: u128, c: u128, d: u128, e: u128)
+    requires 0 <= a * b + c - d * e < B128()
+    ensures
+        #[trigger] vstd::wrapping::u128_specs::wrapping_sub(
+            vstd::wrapping::u128_specs::wrapping_add(vstd::wrapping::u128_specs::wrapping_mul(a, b), c),
+            vstd::wrapping::u128_specs::wrapping_mul(d, e)) == a * b + c - d * e
+{
+    let m = B128();
+    lemma_b128();
+    let ab = (a * b) as int;
+    let de = (d * e) as int;
+    assert(0 <= ab) by (nonlinear_arith) requires ab == a * b, a >= 0, b >= 0;
+    assert(0 <= de) by (nonlinear_arith) requires de == d * e, d >= 0, e >= 0;
+    lemma_div_forms(ab, m);
+    lemma_div_forms(de, m);
+    let w1 = vstd::wrapping::u128_specs::wrapping_mul(a, b);
+    let w2 = vstd::wrapping::u128_specs::wrapping_add(w1, c);
+    let w3 = vstd::wrapping::u128_specs::wrapping_mul(d, e);
+    let w4 = vstd::wrapping::u128_specs::wrapping_sub(w2, w3);
+    assert(w1 == ab % m);
+    assert(w3 == de % m);
+    let k1 = ab / m;
+    let k3 = de / m;
+    assert(w2 == w1 + c || w2 == w1 + c - m);
+    assert(w4 == w2 - w3 || w4 == w2 - w3 + m);
+    // w4 == (ab + c - de) + j * m for an integer j, and both sides lie in [0, m)
+    let tgt = ab + c - de;
+    let j = (w4 - tgt);
+    assert(j == (k3 - k1) * m || j == (k3 - k1) * m - m || j == (k3 - k1) * m + m) by (nonlinear_arith)
+        requires ab == k1 * m + w1, de == k3 * m + w3, w2 == w1 + c || w2 == w1 + c - m,
+            w4 == w2 - w3 || w4 == w2 - w3 + m, j == w4 - (ab + c - de);
+    assert(-m < j < m);
+    let kk = k3 - k1;
+    assert(j == 0) by (nonlinear_arith)
+        requires -m < j < m, j == kk * m || j == kk * m - m || j == kk * m + m, m > 0;
+}
+
+/// Both digits found: quotient and (scaled) remainder of the original operands
+pub broadcast proof fn lemma_knuth_final(x: int, y: int, p: int, u32: int, u10: int, v: int,
+                                         q1: int, u1: int, t: int, q0: int, u0: int)
+    requires
+        #[trigger] norm_ok(x, y, p, u32, u10, v),
+        #[trigger] digit_done(q1, u32, u1, v),
+        #[trigger] digit_done(q0, t, u0, v),
+        u1 == u10 / B64(), u0 == u10 % B64(),
+        t == u32 * B64() + u1 - q1 * v,
+        y > 0,
+    ensures
+        0 <= q1 * B64() + q0 < B128(),
+        q1 * B64() + q0 == x / y,
+        0 <= t * B64() + u0 - q0 * v < v,
+        (t * B64() + u0 - q0 * v) / p == x % y,
+        0 <= x % y < y,
+{
+    let b = B64();
+    let m = B128();
+    lemma_b128();
+    assert(m == b * b);
+    let rn = t * b + u0 - q0 * v;
+    let q = q1 * b + q0;
+    assert(u10 == u1 * b + u0);
+    // x * p == q * v + rn
+    assert(u32 * m + u10 == (u32 * b + u1) * b + u0) by (nonlinear_arith) requires m == b * b, u10 == u1 * b + u0;
+    assert((q1 * v + t) * b == (q1 * b) * v + t * b) by (nonlinear_arith);
+    assert(q * v == (q1 * b) * v + q0 * v) by (nonlinear_arith) requires q == q1 * b + q0;
+    assert(x * p == q * v + rn);
+    // divide by p
+    let r = x - q * y;
+    assert(q * v == (q * y) * p) by (nonlinear_arith) requires v == y * p;
+    assert(rn == r * p) by (nonlinear_arith) requires x * p == (q * y) * p + rn, r == x - q * y;
+    assert(0 <= r) by (nonlinear_arith) requires 0 <= r * p, p >= 1;
+    assert(r < y) by (nonlinear_arith) requires r * p < y * p, p >= 1;
+    lemma_div_mod_unique(x, y, q, r);
+    lemma_div_mod_unique(rn, p, r, 0);
+    lemma_div_forms(x, y);
+}
+
+pub broadcast proof fn lemma_shr_p2_b(x: u128, s: u128)
+    requires s < 128
+    ensures (#[trigger] (x >> s)) as int == (x as int) / p2(s as int)
+{
+    lemma_shr_p2(x, s);
+}
+
+pub broadcast group group_knuth {
+    lemma_shr64, lemma_lo64, lemma_shl64, lemma_normalize, lemma_digit_init, lemma_wrapping_mul_add_sub_mul,
+    lemma_knuth_final, lemma_shr_p2_b,
+}
